@@ -33,7 +33,11 @@ def build(tier="quick", seed=0):
     forwarding(b)
     layered_sums(b)
     fixed_parameters(b)
+    strength_cache(b)
+    notification(b)
     b.replayer("*::ensures:love_numbers_current*", _replay_fixed_q)
+    b.replayer("*::invariant:compliance_is_reciprocal_shear*", _replay_strength)
+    b.replayer("*::ensures:orbit_is_told*", _replay_strength)
     b.replayer("*::forwards", _replay_stale)
     b.replayer("*::ensures:spin_follows_orbit*", _replay_c13)
     b.replayer("*#global_sums*", _replay_c13)
@@ -272,6 +276,106 @@ def fixed_parameters(b):
                    refuted_model=None if (ok_call and ok_exit) else dict(stored=str(o._attrs.get(fld)), wanted=str(want)))
 
 
+def strength_cache(b):
+    """representation invariant of the strength cache the complex compliances are built from: after every writer of (post-melt shear modulus,
+    post-melt compliance) the two agree, compliance * shear == 1; and the rheology is told that the strength changed after the store.
+    Writers: Rheology.set_state (manual override) and PartialMelt._calculate (temperature-driven)."""
+    FRH, FPM = "TidalPy/rheology/rheology.py", "TidalPy/rheology/partial_melt/partialmelt.py"
+    mu_old, J_old, eta_old, mu_new, eta_new = R("shear_before"), R("compliance_before"), R("viscosity_before"), R("shear_given"), R("viscosity_given")
+    pre = [sp.Gt(x_, 0) for x_ in (mu_old, J_old, eta_old, mu_new, eta_new)] + [sp.Eq(mu_old * J_old, 1)]
+    try:
+        cls = ClassModel("Rheology", FRH)
+    except ExtractError as e:
+        b.subset_exits.append(str(e))
+        return
+    c, node = cls.lookup("methods", "set_state")
+    if node is None:
+        b.subset_exits.append(f"{FRH}::Rheology.set_state: method not found")
+    else:
+        mfn = MethodFn(c, node)
+        b.functions[mfn.key] = mfn.info()
+        for give_mu, give_eta in ((True, True), (True, False), (False, True)):
+            pm = Obj(None, _postmelt_viscosity=eta_old, _postmelt_shear_modulus=mu_old, _postmelt_compliance=J_old)
+            seen = []
+
+            def changed(ex, node_, *a_, **k_):
+                seen.append((pm._attrs["_postmelt_shear_modulus"], pm._attrs["_postmelt_compliance"], pm._attrs["_postmelt_viscosity"]))
+                return None
+            o = Obj(cls, _partial_melting_model=pm, _viscosity_model=Obj(None, _viscosity=R("premelt_visc")), _liquid_viscosity_model=Obj(None, _viscosity=R("liquid_visc")),
+                    viscosity=eta_old, shear_modulus=mu_old, strength_changed=changed)
+            genv = dict(TidalPy=Namespace("TidalPy", dict(extensive_checks=False)), MissingArgumentError="MissingArgumentError", UnusualRealValueError="UnusualRealValueError")
+            ex = Exec(mfn, pre=pre, globals_env=genv, contracts={}, opts=dict(definedness=True))
+            tag = f"[shear={int(give_mu)};viscosity={int(give_eta)}]"
+            try:
+                paths = ex.run({"self": o, "viscosity": eta_new if give_eta else None, "shear_modulus": mu_new if give_mu else None})
+            except SymExError as e:
+                b.subset_exits.append(f"{mfn.key} {tag}: {e}")
+                continue
+            b.absorb_exec(ex)
+            if len(paths) != 1 or paths[0].outcome != "return":
+                b.subset_exits.append(f"{mfn.key} {tag}: {[p_.outcome for p_ in paths]}")
+                continue
+            mu_n, J_n, eta_n = pm._attrs["_postmelt_shear_modulus"], pm._attrs["_postmelt_compliance"], pm._attrs["_postmelt_viscosity"]
+            b.add(Obligation(oid=f"{mfn.key}::invariant:compliance_is_reciprocal_shear{tag}", fn=mfn.key,
+                             clause="invariant kept: post-melt compliance * post-melt shear modulus == 1 (the compliances and the Love numbers are built from the compliance, the collapse from the shear modulus)",
+                             goal=sp.Eq(sp.sympify(J_n) * sp.sympify(mu_n), 1), hyps=pre + paths[0].hyps, meta=dict(shear=str(mu_n), compliance=str(J_n))))
+            b.add(Obligation(oid=f"{mfn.key}::ensures:stores_given{tag}", fn=mfn.key, clause="ensures the given strength values are the stored ones, the others are kept",
+                             goal=sp.And(sp.Eq(sp.sympify(mu_n), mu_new if give_mu else mu_old), sp.Eq(sp.sympify(eta_n), eta_new if give_eta else eta_old)), hyps=pre + paths[0].hyps))
+            ok = len(seen) >= 1 and all(sp.simplify(sp.sympify(x_[0]) - sp.sympify(mu_n)) == 0 and sp.simplify(sp.sympify(x_[1]) - sp.sympify(J_n)) == 0 and sp.simplify(sp.sympify(x_[2]) - sp.sympify(eta_n)) == 0 for x_ in seen[-1:])
+            ground(b, f"{mfn.key}::ensures:notifies_after_store{tag}", mfn.key, "strength_changed() is called, and it sees the final stored values (compliances are recomputed from them)", ok, detail=f"{len(seen)} call(s): {seen[-1:]}")
+    # temperature-driven writer
+    try:
+        fn = Fn(FPM, "PartialMelt._calculate")
+    except ExtractError as e:
+        b.subset_exits.append(str(e))
+        return
+    b.add_fn(fn)
+    tail = [s_ for s_ in fn.node.body if isinstance(s_, ast.Assign) and any("_postmelt_" in ast.unparse(t_) or "_melt_fraction" in ast.unparse(t_) for t_ in s_.targets)]
+    if not tail:
+        b.subset_exits.append(f"{fn.key}: stores of the post-melt values not found")
+        return
+    pm = Obj(None, _postmelt_viscosity=eta_old, _postmelt_shear_modulus=mu_old, _postmelt_compliance=J_old, _melt_fraction=R("melt_before"))
+    fr, ex, paths = run_fragment(b, fn, tail, "stores", dict(self=pm, melt_fraction=R("melt_new"), postmelt_viscosity=eta_new, postmelt_shear_modulus=mu_new), pre)
+    if paths and len(paths) == 1:
+        b.add(Obligation(oid=f"{fn.key}::invariant:compliance_is_reciprocal_shear", fn=fn.key, clause="invariant kept by the temperature-driven update: compliance * shear modulus == 1, and the new shear modulus is the stored one",
+                         goal=sp.And(sp.Eq(sp.sympify(pm._attrs["_postmelt_compliance"]) * sp.sympify(pm._attrs["_postmelt_shear_modulus"]), 1), sp.Eq(sp.sympify(pm._attrs["_postmelt_shear_modulus"]), mu_new),
+                                     sp.Eq(sp.sympify(pm._attrs["_postmelt_viscosity"]), eta_new)), hyps=pre + paths[0].hyps))
+
+
+def notification(b):
+    """TidalWorld.dissipation_changed: a change of a world's dissipation reaches the orbit (whose derivatives da/dt, de/dt, dn/dt depend on the
+    dissipation of BOTH the tidal bodies and the tidal host), whatever role the world has in the orbit."""
+    base = ClassModel("BaseWorld", FWB, bases=[ClassModel("PhysicalObjSpherical", FPH)])
+    cls = ClassModel("TidalWorld", FWT, bases=[base])
+    c, node = cls.lookup("methods", "dissipation_changed")
+    if node is None:
+        b.subset_exits.append(f"{FWT}::TidalWorld.dissipation_changed: method not found")
+        return
+    mfn = MethodFn(c, node)
+    b.functions[mfn.key] = mfn.info()
+    for role in ("tidal_body", "tidal_host", "star_host"):
+        told = []
+        orbit = Obj(None, dissipation_changed=(lambda ex, node_, *a_, **k_: told.append(a_)))
+        w = Obj(cls, _orbit=orbit, orbit=orbit, world_class="layered", internal_heating_changed=(lambda ex, node_, *a_, **k_: None), name="w")
+        other = Obj(None, name="other")
+        orbit.setattr("tidal_host", w if role != "tidal_body" else other)
+        orbit.setattr("star", w if role == "star_host" else other)
+        orbit.setattr("tidal_objects", [w, other] if role != "tidal_body" else [other, w])
+        orbit.setattr("star_host", role == "star_host")
+        ex = Exec(mfn, globals_env={}, contracts={}, opts=dict(definedness=False))
+        try:
+            paths = ex.run({"self": w})
+        except SymExError as e:
+            b.subset_exits.append(f"{mfn.key} [{role}]: {e}")
+            continue
+        rets = [p_ for p_ in paths if p_.outcome == "return"]
+        if len(paths) != 1 or len(rets) != 1:
+            b.subset_exits.append(f"{mfn.key} [{role}]: {[p_.outcome for p_ in paths]}")
+            continue
+        ground(b, f"{mfn.key}::ensures:orbit_is_told[{role}]", mfn.key, "ensures (world has an orbit) orbit.dissipation_changed(self) is called: the orbit's derivatives are refreshed for a change of this world's dissipation",
+               len(told) == 1 and len(told[0]) == 1 and told[0][0] is w, detail=f"calls: {len(told)}", refuted_model=None if len(told) == 1 else dict(role=role, calls=len(told)))
+
+
 def layered_sums(b):
     """LayeredTides.collapse_modes: the global heating / potential derivatives are the sums over the tidally active layers, for ARRAY-valued layer
     results as well, and forming them leaves every per-layer result (the objects also stored in tidal_heating_by_layer and exposed by the layers)
@@ -401,6 +505,48 @@ def bounded_histories(b, tier, seed):
             ground(b, f"{FT}::TidesBase.orbit_spin_changed::bounded:history[{'>'.join(str(x) for x in item[0])}]", f"{FT}::TidesBase.orbit_spin_changed",
                    "BOUNDED native run: after this history of setter calls the derived quantities equal those of a freshly built world in the final state", False,
                    detail=str(item)[:300], refuted_model=dict(history=str(item[0]), after_history=str(item[1])[:120], fresh_world=str(item[2])[:120]), bounded=True, native_confirmed=True)
+
+
+_C13_STRENGTH = r'''
+import logging, warnings
+import numpy as np
+warnings.filterwarnings('ignore')
+from TidalPy.structures import build_world, build_from_world
+from TidalPy.structures.orbit import PhysicsOrbit
+logging.disable(logging.CRITICAL)
+STAR = build_world('55cnc'); IO = build_world('io_simple')
+c = {"force_spin_sync": True, "type": "layered", "tides": {"model": "layered", "eccentricity_truncation_lvl": 2, "max_tidal_order_l": 2, "obliquity_tides_on": True},
+     "layers": {"Core": {"is_tidally_active": False}, "Mantle": {"is_tidally_active": True}}}
+ww = build_from_world(IO, new_config=c); ss = build_from_world(STAR, new_config={})
+hh = build_world('earth_simple')
+oo = PhysicsOrbit(ss, tidal_host=hh, tidal_bodies=ww)
+ww.set_state(orbital_period=3.0, eccentricity=0.05, obliquity=0.1)
+ww.mantle.temperature = 1500.0
+ww.mantle.set_strength(shear_modulus=3.0e10)
+pm = ww.mantle.rheology.partial_melting_model
+prod = float(np.asarray(pm.postmelt_compliance * pm.postmelt_shear_modulus).ravel()[0])
+# orbit told
+calls = []
+orig = oo.dissipation_changed
+def spy(world): calls.append(world.name); return orig(world)
+oo.dissipation_changed = spy
+hh.dissipation_changed()
+n_host = len(calls)
+ww.dissipation_changed()
+result = dict(compliance_times_shear=prod, host_calls=n_host, body_calls=len(calls) - n_host)
+'''
+
+
+def _replay_strength(ob, res):
+    from tpv import native
+    out = native.run(dict(code=_C13_STRENGTH), timeout=900)
+    rec = dict(replayed=True, native=out, what="layered Io: mantle.set_strength(shear_modulus=3e10) then compliance * shear; host.dissipation_changed() / body.dissipation_changed() with a spy on orbit.dissipation_changed")
+    try:
+        v = out["result"]
+        rec["confirmed"] = bool(abs(v["compliance_times_shear"] - 1.0) > 1e-12 or v["host_calls"] != 1 or v["body_calls"] != 1)
+    except Exception:
+        rec["confirmed"] = "exception" in out
+    return rec
 
 
 def _replay_stale(ob, res):
